@@ -157,7 +157,12 @@ func (ex *Exec) concretize(t *Term) uint64 {
 func (x *Explorer) check() string {
 	if time.Now().After(x.deadline) {
 		// hard stop: the budget is also enforced inside a path, not only between paths
-		panic(engineError{"time budget exhausted inside a path"})
+		if x.ex.x == x {
+			panic(engineError{"time budget exhausted inside a path"})
+		}
+		// between paths (backtracking): report unknown, the caller marks the run incomplete
+		x.res.Unknown++
+		return "unknown"
 	}
 	r := x.s.Check()
 	if r == "unknown" {
